@@ -34,6 +34,7 @@ def build(cx, stations, station_of, H, mr, n_recompute, poison, table, tag=""):
         a, d, req, cap = table["times"][i] + (table["req"][i], table["cap"][i])
         evs.append(A.EV(a, d, req, stations[station_of[i]][0], "sess%d" % i, A.Battery(cap, 0, 40)))
     calls = []
+    calls_at_registration = []
 
     def pilot(sid, t):
         key = (sid, t)
@@ -45,6 +46,14 @@ def build(cx, stations, station_of, H, mr, n_recompute, poison, table, tag=""):
         def __init__(self):
             super().__init__()
             self.max_recompute = mr
+
+        def register_interface(self, interface):
+            # a scheduler may look at the site as soon as it is attached (period 0, before any event has been applied):
+            # read-only queries, whose answers must not be what a later invocation is shown
+            super().register_interface(interface)
+            peek = (interface.active_sessions(), dict(interface.last_actual_charging_rate), dict(interface.last_applied_pilot_signals),
+                    interface.infrastructure_info(), interface.current_time)
+            calls_at_registration.append(len(peek[0]))
 
         def schedule(self, active_sessions):
             it = self.interface
